@@ -1,4 +1,5 @@
 """C03 — every algorithm returns a well-formed consensus over exactly the universe."""
+from hypothesis import strategies as st
 from vlib import gen, lib, configs
 from vlib.harness import HypSub
 from checks.common_alg import alg_cases, run_case, well_formed, id_order_differs
@@ -37,5 +38,32 @@ def check(case, ctx):
     ctx.stats.case(case, nt, labels)
 
 
+MIXED_NAMES = ["a", "1", "2", "3", "b", "4", "10", "c", "5", "6", "7", "d", "8", "9", "11", "12"]
+
+
+@st.composite
+def mixed_name_cases(draw, tier):
+    """string names of which most are integer-like (the dataset keeps them all as strings because one name is not):
+    sub-problems that only hold integer-like names must still give back the dataset's own elements"""
+    from vlib import configs as cfgs
+    name, env = draw(st.sampled_from(cfgs.PAIRS))
+    cfg = cfgs.BY_NAME[name]
+    from checks.common_alg import size_limit
+    n = draw(st.sampled_from(list(range(2, size_limit(cfg, env, tier) + 1))))
+    names = MIXED_NAMES[:n]
+    shape = draw(st.sampled_from(["cyclic", "block_cyclic", "incomplete", "near_unanimous", "camps", "cyclic_ties"]))
+    ds = draw(gen.datasets(max_n=n, min_n=n, max_m=5, shapes=[shape], kinds=("dense",), allow_empty_rankings=True))
+    used = sorted({e for r in ds["rankings"] for b in r for e in b})
+    ren = {e: names[i % n] for i, e in enumerate(used)}
+    rankings = [[[ren[e] for e in b] for b in r] for r in ds["rankings"]]
+    if not any("a" in b for r in rankings for b in r):
+        rankings.append([["a"]])
+    scheme = draw(st.one_of(gen.tie_averse_schemes(), gen.any_schemes(), gen.preset_multiples()))
+    return {"config": name, "env": env, "scheme": scheme,
+            "dataset": {"rankings": rankings, "shape": shape, "kind": "mixed"},
+            "at_most_one": draw(st.booleans()), "rng": draw(st.integers(0, 999)), "via_mutation": None}
+
+
 def subchecks():
-    return [HypSub("wellformed", alg_cases, check, quick=20000, thorough=250000)]
+    return [HypSub("wellformed", alg_cases, check, quick=20000, thorough=250000),
+            HypSub("mixed_names", mixed_name_cases, check, quick=4000, thorough=50000)]
